@@ -132,7 +132,9 @@ def m_box_new(ex, st, c): return c.args[0]
 @model(r'^String::push_str$', r'^Vec::<u8>::extend_from_slice$', r'^<Vec<u8> as Extend<u8>>::extend$', r'^<Vec<u8> as Extend<&u8>>::extend$')
 def m_push_str(ex, st, c):
     cur = D(ex, st, c.args[0]); add = D(ex, st, c.args[1])
-    if isinstance(add, Iter): add = iter_rest_as_str(ex, st, add)
+    if isinstance(add, Iter): add = Vec(add.items[add.pos:])
+    if isinstance(add, Vec): add = SymStr.from_bytes_list([D(ex, st, x).v for x in add.items])
+    if isinstance(cur, Vec) and not cur.items: cur = SymStr(())
     ex.store(st, c.args[0], cur.concat(add)); return UNIT
 
 
@@ -829,6 +831,8 @@ def m_from_utf8(ex, st, c):
     ascii_ = utf8_classes(f)
     if ascii_ is True: return Ok(s)
     valid = utf8_valid(f)
+    if ex.allow_non_ascii:
+        return Fork([(b_or(ascii_, valid), Ok(s)), (b_and(b_not(ascii_), b_not(valid)), Err(Opaque('FromUtf8Error')))])
     return Fork([(ascii_, Ok(s)),
                  (b_and(b_not(ascii_), b_not(valid)), Err(Opaque('FromUtf8Error'))),
                  (b_and(b_not(ascii_), valid), StopR('domain:non-ascii', 'from_utf8 accepted non-ASCII text'))])
@@ -1060,14 +1064,44 @@ def char_of(b):
     return Int('char', b if isinstance(b, int) else z3.ZeroExt(24, b))
 
 
+def utf8_char_table(s):
+    """for a valid UTF-8 string (<= 2-byte sequences decoded exactly; 3/4-byte leads are reported via `wide`):
+    returns (nchars, [(is_start_i, rank_i, charvalue_i)], wide)"""
+    f = s.flat(); n = f.cap
+    starts = []; rank = 0; wide = False
+    for i in range(n):
+        b = f.bs[i]
+        inr = bv_ult(i, f.ln, LW)
+        cont = b_and(bv_ule(0x80, b, 8), bv_ult(b, 0xC0, 8)) if not isinstance(b, int) else (0x80 <= b < 0xC0)
+        is_start = b_and(inr, b_not(cont))
+        two = b_and(bv_ule(0xC0, b, 8), bv_ult(b, 0xE0, 8)) if not isinstance(b, int) else (0xC0 <= b < 0xE0)
+        three_plus = bv_ule(0xE0, b, 8) if not isinstance(b, int) else (b >= 0xE0)
+        wide = b_or(wide, b_and(is_start, three_plus))
+        nb = f.bs[i + 1] if i + 1 < n else 0
+        if isinstance(b, int) and isinstance(nb, int):
+            cv = (((b & 0x1f) << 6) | (nb & 0x3f)) if 0xC0 <= b < 0xE0 else b
+        else:
+            bz = bvval(b, 8) if isinstance(b, int) else b; nz = bvval(nb, 8) if isinstance(nb, int) else nb
+            cv2 = (z3.ZeroExt(24, bz & 0x1f) << 6) | z3.ZeroExt(24, nz & 0x3f)
+            cv = z3.If(zb(two), cv2, z3.ZeroExt(24, bz))
+        starts.append((is_start, rank, cv))
+        rank = ite_bv(is_start, bv_add(rank, 1, LW), rank, LW)
+    return rank, starts, wide
+
+
 @model(r"^<Chars<'_> as Iterator>::count$")
 def m_chars_count(ex, st, c):
     s, pos = D(ex, st, c.args[0]).data
+    if ex.allow_non_ascii and not (isinstance(pos, int) and pos == 0): raise Unsupported('advanced Chars with non-ASCII text')
+    if ex.allow_non_ascii:
+        nchars, _, wide = utf8_char_table(s)
+        return Fork([(wide, StopR('domain:wide-utf8', '3/4-byte UTF-8 sequence')), (b_not(wide), usize(nchars))])
     return usize(bv_sub(s.length(), pos, LW))
 
 
 @model(r"^<Chars<'_> as Iterator>::last$")
 def m_chars_last(ex, st, c):
+    if ex.allow_non_ascii: raise Unsupported('m_chars_last is not UTF-8 aware (non-ASCII domain enabled)')
     s, pos = D(ex, st, c.args[0]).data
     n = s.length()
     if isinstance(n, int) and isinstance(pos, int):
@@ -1082,6 +1116,16 @@ def m_chars_last(ex, st, c):
 def m_chars_nth(ex, st, c):
     it = D(ex, st, c.args[0]); s, pos = it.data
     k = D(ex, st, c.args[1])
+    if ex.allow_non_ascii:
+        if not (isinstance(pos, int) and pos == 0) or isinstance(c.args[0], MutRef) and False: raise Unsupported('advanced Chars with non-ASCII text')
+        nchars, table, wide = utf8_char_table(s)
+        oob = bv_ule(nchars, k.v, LW)
+        cv = 0
+        for is_start, rank, val in reversed(table):
+            hit = b_and(is_start, bv_eq(rank, k.v, LW))
+            if hit is False: continue
+            cv = val if hit is True else ite_bv(hit, val, cv, 32)
+        return Fork([(wide, StopR('domain:wide-utf8', '3/4-byte UTF-8 sequence')), (b_and(b_not(wide), oob), NONE), (b_and(b_not(wide), b_not(oob)), Some(Int('char', cv)))])
     idx = bv_add(pos, k.v, LW)
     n = s.length()
     oob = bv_ule(n, idx, LW)
@@ -1094,6 +1138,7 @@ def m_chars_nth(ex, st, c):
 
 @model(r"^<Chars<'_> as Iterator>::next$")
 def m_chars_next(ex, st, c):
+    if ex.allow_non_ascii: raise Unsupported('m_chars_next is not UTF-8 aware (non-ASCII domain enabled)')
     it = D(ex, st, c.args[0]); s, pos = it.data
     n = s.length(); oob = bv_ule(n, pos, LW)
     b = s.byte_at(pos) if isinstance(pos, int) else s.flat().byte_at(pos)
@@ -1103,12 +1148,14 @@ def m_chars_next(ex, st, c):
 
 @model(r"^<Chars<'_> as Iterator>::rev$")
 def m_chars_rev(ex, st, c):
+    if ex.allow_non_ascii: raise Unsupported('m_chars_rev is not UTF-8 aware (non-ASCII domain enabled)')
     s, pos = D(ex, st, c.args[0]).data
     return Opaque('RevChars', (s, pos))
 
 
 @model(r"^<Rev<Chars<'_>> as Iterator>::collect$")
 def m_rev_collect(ex, st, c):
+    if ex.allow_non_ascii: raise Unsupported('m_rev_collect is not UTF-8 aware (non-ASCII domain enabled)')
     s, pos = D(ex, st, c.args[0]).data
     if pos != 0: raise Unsupported('rev of advanced chars')
     f = s.flat()
@@ -1121,6 +1168,7 @@ def m_rev_collect(ex, st, c):
 
 @model(r"^<Chars<'_> as Iterator>::skip$")
 def m_chars_skip(ex, st, c):
+    if ex.allow_non_ascii: raise Unsupported('m_chars_skip is not UTF-8 aware (non-ASCII domain enabled)')
     s, pos = D(ex, st, c.args[0]).data; k = D(ex, st, c.args[1])
     return Opaque('SkipChars', (s, bv_add(pos, k.v, LW)))
 
@@ -1128,6 +1176,23 @@ def m_chars_skip(ex, st, c):
 @model(r"^<Skip<Chars<'_>> as Iterator>::collect$", r"^<Chars<'_> as Iterator>::collect$")
 def m_skip_collect(ex, st, c):
     s, pos = D(ex, st, c.args[0]).data
+    if ex.allow_non_ascii:
+        if not (isinstance(pos, int) and pos == 0) or 'Vec<char>' not in c.callee: raise Unsupported('collect of Chars with non-ASCII text: ' + c.callee)
+        nchars, table, wide = utf8_char_table(s)
+        cap = len(table)
+        alts = [(wide, StopR('domain:wide-utf8', '3/4-byte UTF-8 sequence'))]
+        lo, hi = bounds(nchars)
+        for k in range(lo, min(hi, cap) + 1):
+            items = []
+            for j in range(k):
+                cv = 0
+                for is_start, rank, val in reversed(table):
+                    hit = b_and(is_start, bv_eq(rank, j, LW))
+                    if hit is False: continue
+                    cv = val if hit is True else ite_bv(hit, val, cv, 32)
+                items.append(Int('char', cv))
+            alts.append((b_and(b_not(wide), bv_eq(nchars, k, LW)), Vec(items)))
+        return Fork(alts)
     n = s.length()
     if isinstance(pos, int) and isinstance(n, int):
         r = s.substr(min(pos, n), max(0, n - pos))
@@ -1284,6 +1349,10 @@ def m_slice_get(ex, st, c):
     if isinstance(v, Vec):
         if isinstance(i, Int):
             if i.conc: return Some(v.items[i.v]) if i.v < len(v.items) else NONE
+            mv = merge_vals([(i.v == k, D(ex, st, x)) for k, x in enumerate(v.items)]) if v.items else None
+            if mv is not None:
+                inb = z3.ULT(i.v, len(v.items))
+                return Fork([(inb, Some(mv)), (b_not(inb), NONE)])
             alts = [(i.v == k, Some(x)) for k, x in enumerate(v.items)]
             alts.append((z3.UGE(i.v, len(v.items)), NONE))
             return Fork(alts)
@@ -1393,6 +1462,7 @@ def render_display(ex, st, kind, v, flags=None):
             return SymStr((Atom(z3.If(v, bvval(4, LW), bvval(5, LW)), tuple(z3.If(v, bvval(a, 8), bvval(b, 8)) for a, b in zip(b'true\0', b'false'))),))
     if kind == 'binary' and isinstance(v, Int):
         if v.conc: return SymStr.const(format(v.v, 'b'))
+        return opaque_msg(ex, st, 'binary')     # text of a symbolic number in base 2: opaque (must not flow into an asserted value)
     if kind == 'debug':
         return opaque_msg(ex, st, 'debug')
     raise Unsupported('format %s of %r' % (kind, v))
@@ -1565,6 +1635,14 @@ def m_hm_insert(ex, st, c):
 def m_hm_get(ex, st, c):
     hm = D(ex, st, c.args[0]); k = D(ex, st, c.args[1])
     ck = 'contains_key' in c.callee
+    if isinstance(k, Int) and not k.conc and hm.data and all(isinstance(k2, Int) and k2.conc for k2, _ in hm.data):
+        # symbolic scalar key against concrete keys: one found/not-found fork, the value is an if-then-else chain
+        conds = [(k.v == bvval(k2.v, WIDTH[k.ty]), v2) for k2, v2 in hm.data]
+        found = b_or(*[cnd for cnd, _ in conds])
+        if ck: return found
+        mv = merge_vals([(cnd, D(ex, st, v2)) for cnd, v2 in conds])
+        if mv is not None:
+            return Fork([(found, Some(mv)), (b_not(found), NONE)])
     alts = []; none_cond = True
     for (k2, v2) in hm.data:
         same = simp_bool(values_eq(ex, st, k, k2))
